@@ -99,4 +99,197 @@ theorem owner_unique_temp {s : State} (hi : Inv s) {a b th : Nat} (ha : OwnsTemp
   · rfl
   · rfl
 
+theorem nobody_owns_pending {s : State} (hA : InvA s) {q t : Nat} (hp : t ∈ s.jobs q) : ∀ x, ¬OwnsTask s x t := by
+  intro x hx
+  rcases hx with ⟨h1, _⟩ | ⟨q', h1⟩ | ⟨_, h1, _⟩
+  · have := hA.jobs_lt q t hp; omega
+  · exact hA.pending_fresh q t hp (hA.run_started x t q' h1).1
+  · exact hA.pending_fresh q t hp (hA.done_sub t h1)
+
+/-- ownership of a task after `doPop`: the popper acquires the popped task, everything else is unchanged -/
+theorem ownsTask_doPop {s : State} (hA : InvA s) {th q t : Nat} {r : List Nat} (hj : s.jobs q = t :: r)
+    (hlt : th < s.pcs.length) {o t' : Nat} (h : OwnsTask (doPop s th q t r) o t') :
+    OwnsTask s o t' ∨ (t' = t ∧ o = th) := by
+  rcases h with ⟨h1, rfl⟩ | ⟨q', h1⟩ | ⟨rfl, h1, h2⟩
+  · exact Or.inl (Or.inl ⟨h1, rfl⟩)
+  · simp only [doPop] at h1
+    by_cases ho : o = th
+    · subst ho
+      simp [hlt] at h1
+      exact Or.inr ⟨h1.1.symm, rfl⟩
+    · rw [List.getElem?_set_ne (fun e => ho e.symm)] at h1
+      exact Or.inl (Or.inr (Or.inl ⟨q', h1⟩))
+  · simp only [doPop] at h1
+    left; right; right
+    refine ⟨rfl, h1, ?_⟩
+    rcases h2 with h2 | h2
+    · simp only [doPop, upd_apply] at h2
+      split at h2
+      · rename_i e
+        subst e
+        exfalso
+        have hp : t' ∈ s.jobs q := by simp [hj]
+        exact hA.pending_fresh q t' hp (hA.done_sub t' h1)
+      · exact Or.inl h2
+    · exact Or.inr h2
+
+
+/-- frame rule: if nothing relevant changed, ownership did not change -/
+theorem ownsTask_frame {s s' : State} {o t : Nat} (h : OwnsTask s' o t)
+    (hn : s.nextId ≤ s'.nextId) (hd : s'.done = s.done) (hsy : s'.synced = s.synced)
+    (hr : s'.runner = s.runner)
+    (hp : ∀ o t q : Nat, s'.pcs[o]? = some (Pc.running t q) → s.pcs[o]? = some (Pc.running t q)) :
+    OwnsTask s o t := by
+  rcases h with ⟨h1, rfl⟩ | ⟨q, h1⟩ | ⟨rfl, h1, h2⟩
+  · exact Or.inl ⟨by omega, rfl⟩
+  · exact Or.inr (Or.inl ⟨q, hp o t q h1⟩)
+  · refine Or.inr (Or.inr ⟨rfl, by rw [← hd]; exact h1, ?_⟩)
+    unfold Synced at h2 ⊢
+    rw [hr, hsy] at h2
+    exact h2
+
+theorem running_set_ne {l : List Pc} {th o t q : Nat} {p : Pc} (hp : ∀ t q, p ≠ Pc.running t q)
+    (h : (l.set th p)[o]? = some (Pc.running t q)) : l[o]? = some (Pc.running t q) := by
+  by_cases e : th = o
+  · subst e
+    rw [List.getElem?_set] at h
+    simp only [if_true] at h
+    split at h
+    · cases h; exact absurd rfl (hp t q)
+    · cases h
+  · rwa [List.getElem?_set_ne e] at h
+
+theorem ownsTask_scanBody {s : State} (hA : InvA s) {th : Nat} (hlt : th < s.pcs.length) {o t : Nat}
+    (h : OwnsTask (scanBody s th) o t) :
+    OwnsTask s o t ∨ ((∀ x, ¬OwnsTask s x t) ∧ o = th ∧ ∃ q, t ∈ s.jobs q) := by
+  rcases scanBody_cases s th with ⟨_, he⟩ | ⟨_, _, he⟩ | ⟨_, q, t0, r, _, hj, _, _, he⟩
+  · rw [he] at h
+    exact Or.inl (ownsTask_frame (s := s) h (Nat.le_refl _) rfl rfl rfl (fun o t q hh => running_set_ne (by intros; simp) hh))
+  · rw [he] at h
+    exact Or.inl (ownsTask_frame (s := s) h (Nat.le_refl _) rfl rfl rfl (fun o t q hh => running_set_ne (by intros; simp) hh))
+  · rw [he] at h
+    rcases ownsTask_doPop hA hj hlt h with h' | ⟨rfl, rfl⟩
+    · exact Or.inl h'
+    · exact Or.inr ⟨nobody_owns_pending hA (q := q) (by simp [hj]), rfl, q, by simp [hj]⟩
+
+/-- Ownership of a task's data is never taken over silently: if `o` owns `t` after a step and did not
+before, then nobody owned it before and the step is one of the three acquiring actions — a pop under
+the mutex by `o`, or the external thread leaving the parallel barrier. -/
+theorem acquire_points {s s' : State} {a : Action} (hi : Inv s) (he : InvE s) (hs : step s a = some s')
+    {o t : Nat} (h : OwnsTask s' o t) :
+    OwnsTask s o t ∨ ((∀ x, ¬OwnsTask s x t) ∧
+      ((a = .wScan o ∧ o ≠ 0 ∧ ∃ q, t ∈ s.jobs q) ∨ (a = .waitPop ∧ o = 0 ∧ ∃ q, t ∈ s.jobs q) ∨
+       (a = .spinExit ∧ o = 0 ∧ s.mode = .spin 0 ∧ t ∈ s.done))) := by
+  have hA := hi.a
+  cases a
+  case wScan th =>
+    simp only [step] at hs
+    split at hs
+    · cases hs
+    · rename_i hth
+      split at hs
+      · cases hs
+        rename_i hpc
+        have hlt : th < s.pcs.length := (List.getElem?_eq_some_iff.mp hpc).1
+        rcases ownsTask_scanBody hA hlt h with h' | ⟨h', rfl, hq⟩
+        · exact Or.inl h'
+        · exact Or.inr ⟨h', Or.inl ⟨rfl, hth, hq⟩⟩
+      · cases hs
+        rename_i hpc
+        have hlt : th < s.pcs.length := (List.getElem?_eq_some_iff.mp hpc).1
+        have hA' : InvA { s with tw := s.tw - 1 } :=
+          ⟨hA.1, hA.2, hA.3, hA.4, hA.5, hA.6, hA.7, hA.8, hA.9, hA.10, hA.11, hA.12, hA.13, hA.14, hA.15, hA.16, hA.17⟩
+        rcases ownsTask_scanBody hA' hlt h with h' | ⟨h', rfl, hq⟩
+        · exact Or.inl h'
+        · exact Or.inr ⟨h', Or.inl ⟨rfl, hth, hq⟩⟩
+      · cases hs
+  case waitPop =>
+    step_split hs
+    rename_i q0 hm hg _ t0 r hj
+    have hlt : 0 < s.pcs.length := (List.getElem?_eq_some_iff.mp hg.1).1
+    rcases ownsTask_doPop hA hj hlt h with h' | ⟨rfl, rfl⟩
+    · exact Or.inl h'
+    · exact Or.inr ⟨nobody_owns_pending hA (q := q0) (by rw [hj]; simp), Or.inr (Or.inl ⟨rfl, rfl, q0, by rw [hj]; simp⟩)⟩
+  case spinExit =>
+    step_split hs
+    rename_i q hm hg
+    rcases h with ⟨h1, rfl⟩ | ⟨q', h1⟩ | ⟨rfl, h1, h2⟩
+    · exact Or.inl (Or.inl ⟨h1, rfl⟩)
+    · exact Or.inl (Or.inr (Or.inl ⟨q', h1⟩))
+    · simp only at h1
+      by_cases hsy : Synced s t
+      · exact Or.inl (Or.inr (Or.inr ⟨rfl, h1, hsy⟩))
+      · right
+        have hq0 : q = 0 := by
+          apply Classical.byContradiction
+          intro hq
+          apply hsy
+          rcases h2 with h2 | h2
+          · exact Or.inl h2
+          · simp only [syncedAfter, hq, if_false] at h2
+            exact Or.inr h2
+        subst hq0
+        refine ⟨?_, Or.inr (Or.inr ⟨rfl, rfl, hm, h1⟩)⟩
+        intro x hx
+        rcases hx with ⟨hx, _⟩ | ⟨q', hx⟩ | ⟨_, _, hx⟩
+        · have := hA.started_lt t (hA.done_sub t h1); omega
+        · exact (hA.run_started x t q' hx).2.1 h1
+        · exact hsy hx
+  case taskEnd th =>
+    step_split hs
+    rename_i t0 q0 hpc
+    left
+    rcases h with ⟨h1, rfl⟩ | ⟨q', h1⟩ | ⟨rfl, h1, h2⟩
+    · exact Or.inl ⟨h1, rfl⟩
+    · exact Or.inr (Or.inl ⟨q', running_set_ne (by intros; simp) h1⟩)
+    · simp only [List.mem_append, List.mem_singleton] at h1
+      rcases h1 with h1 | rfl
+      · exact Or.inr (Or.inr ⟨rfl, h1, h2⟩)
+      · rcases h2 with h2 | h2
+        · simp only at h2
+          have := hA.run_runner th t q0 hpc
+          rw [h2] at this
+          subst this
+          exact Or.inr (Or.inl ⟨q0, hpc⟩)
+        · exact absurd (he t h2) (hA.run_started th t q0 hpc).2.1
+  case submitInline =>
+    step_split hs
+    rename_i hg
+    left
+    rcases h with ⟨h1, rfl⟩ | ⟨q', h1⟩ | ⟨rfl, h1, h2⟩
+    · exact Or.inl ⟨by simp only at h1; omega, rfl⟩
+    · simp only at h1
+      by_cases ho : o = 0
+      · subst ho
+        rw [List.getElem?_set] at h1
+        simp only [if_true] at h1
+        split at h1
+        · cases h1; exact Or.inl ⟨Nat.le_refl _, rfl⟩
+        · cases h1
+      · rw [List.getElem?_set_ne (fun e => ho e.symm)] at h1
+        exact Or.inr (Or.inl ⟨q', h1⟩)
+    · simp only at h1
+      refine Or.inr (Or.inr ⟨rfl, h1, ?_⟩)
+      have hlt := hA.started_lt t (hA.done_sub t h1)
+      rcases h2 with h2 | h2
+      · simp only [upd_apply] at h2
+        have : t ≠ s.nextId := by omega
+        simp only [this, if_false] at h2
+        exact Or.inl h2
+      · exact Or.inr h2
+  case submit q =>
+    step_split hs
+    exact Or.inl (ownsTask_frame (s := s) h (by simp) rfl rfl rfl (fun o t q hh => hh))
+  case sdNotify =>
+    step_split hs
+    exact Or.inl (ownsTask_frame (s := s) h (Nat.le_refl _) rfl rfl rfl (fun o t q hh => (wakeAll_running _ _ _ _).mp hh))
+  case wake th =>
+    step_split hs
+    exact Or.inl (ownsTask_frame (s := s) h (Nat.le_refl _) rfl rfl rfl (fun o t q hh => running_set_ne (by intros; simp) hh))
+  case relock th =>
+    step_split hs
+    all_goals exact Or.inl (ownsTask_frame (s := s) h (Nat.le_refl _) rfl rfl rfl (fun o t q hh => running_set_ne (by intros; simp) hh))
+  all_goals (step_split hs)
+  all_goals exact Or.inl (ownsTask_frame (s := s) h (Nat.le_refl _) rfl rfl rfl (fun o t q hh => hh))
+
 end Mustache.Dispatcher
